@@ -1056,6 +1056,130 @@ class ExportTie:
         ctx.log("export tie: %d proof terms (%d with shared sequents), %d id pairs, %d disagreements" % (len(self.expect), shared, len(ids), ndis))
 
 
+# ------------------------------------------------------------------ correspondence: macro models on the kernel model
+class MacroTie:
+    """The Lean models of `trivial`, `intros`, `apply_theorem` (lean/Holpy/C04/MacroModel.lean) against the real
+    macros on harvested / generated invocations: the model's eval result, the model's expansion script (rule by
+    rule against the real exported lines when the line structure corresponds) and the result of running the
+    model script with the C01 checker model."""
+
+    def __init__(self, ctx, impl, limit):
+        self.ctx, self.impl, self.limit = ctx, impl, limit
+        self.lines, self.expect = [], []
+        self.n = {"trivial": 0, "intros": 0, "apply_theorem": 0}
+
+    def maybe_add(self, name, args, ths, th_eval):
+        if name not in self.n or self.n[name] >= self.limit:
+            return
+        try:
+            rec = getattr(self, "_" + name)(args, ths)
+        except Exception:  # noqa
+            return
+        if rec is None:
+            return
+        from harness.common import kwire, sexp
+        line, npm = rec
+        impl = self.impl
+        P, ItemID = impl.proofterm.ProofTerm, impl.proof.ItemID
+        try:
+            pt = impl.theory.global_macros[name]._c04_orig[2](args, tuple(P.atom(ItemID(i), th) for i, th in enumerate(ths)))
+            real = pt.export(ItemID(npm))
+            steps = []
+            for it in real.items:
+                prevs = []
+                for p in it.prevs:
+                    prevs.append(p.id[0] if len(p.id) == 1 else npm + p.id[-1])
+                if it.rule in ("assume", "implies_intr"):
+                    a = ["term", sexp.loads(sexp.dumps(kwire.canon_term(kwire.term_to(it.args))))]
+                elif it.rule == "theorem":
+                    a = ["name", sexp.enc(it.args)]
+                elif it.rule == "substitution":
+                    a = ["inst"]
+                elif it.args is None:
+                    a = ["none"]
+                else:
+                    a = ["other"]
+                steps.append([sexp.enc(it.rule), a, [str(x) for x in prevs]])
+        except Exception:  # noqa
+            return
+        self.n[name] += 1
+        self.lines.append(line)
+        self.expect.append((name, kwire.canon_thm(kwire.thm_to(th_eval)), steps, safe_str(args)[:150]))
+
+    def _trivial(self, goal, ths):
+        from harness.common import kwire, sexp
+        if ths or goal.is_forall():
+            return None
+        return sexp.dumps(["macro", "trivial", kwire.term_to(goal)]), 0
+
+    def _intros(self, args, ths):
+        from harness.common import kwire, sexp
+        if args or len(ths) < 2:
+            return None
+        for t in ths[:-1]:
+            if t.prop.is_VAR() or len(t.hyps) != 1 or t.hyps[0] != t.prop:
+                return None
+        return sexp.dumps(["macro", "intros", [kwire.thm_to(t) for t in ths]]), len(ths)
+
+    def _apply_theorem(self, name, ths):
+        from harness.common import kwire, sexp
+        from logic import matcher
+        from kernel.term import Inst
+        theory = self.impl.theory
+        if not isinstance(name, str):
+            return None
+        th = theory.get_theorem(name)
+        if th.hyps or th.prop.get_stvars() or not matcher.is_fo_pattern(th.prop):
+            return None
+        As, _ = th.prop.strip_implies()
+        if len(ths) > len(As):
+            return None
+        inst = matcher.first_order_match_list(As[:len(ths)], [t.prop for t in ths], Inst())
+        if not inst or inst.tyinst or inst.var_inst or any(v.name not in inst for v in th.prop.get_svars()):
+            return None
+        return sexp.dumps(["macro", "apply_theorem", sexp.enc(name), kwire.thm_to(th), kwire.inst_to(inst),
+                           [kwire.thm_to(t) for t in ths]]), len(ths)
+
+    def finish(self):
+        from harness.common import kwire, sexp
+        ctx = self.ctx
+        if not self.lines:
+            ctx.coverage["macro_tie"] = dict(self.n)
+            return
+        out = ctx.lean_driver(EXE, self.lines)
+        if out is None or len(out) != len(self.lines):
+            ctx.broken("correspondence:c04:macro-driver", "model driver unavailable or wrong number of answers")
+            return
+        ndis = nscript = 0
+
+        def cthm(x):
+            return kwire.canon_thm(x) if isinstance(x, list) and x and x[0] == "thm" else x
+        for (name, ev, steps, descr), line in zip(self.expect, out):
+            ctx.count("macro-tie:" + name)
+            m = sexp.loads(line)
+            bad = None
+            if not isinstance(m, list) or m[0] != "ok":
+                bad = "model answers %s" % line[:200]
+            else:
+                m_eval, m_script, m_run = cthm(m[1]), m[2], cthm(m[3])
+                if m_eval != ev:
+                    bad = "eval: model %s, real %s" % (str(m_eval)[:200], str(ev)[:200])
+                elif m_run != ev:
+                    bad = "the model script run by the checker model ends in %s, real eval %s" % (str(m_run)[:200], str(ev)[:200])
+                elif len(m_script) == len(steps):
+                    nscript += 1
+                    ms = [[s[0], [s[1][0]] + ([kwire.canon_term(s[1][1])] if s[1][0] == "term" else s[1][1:]), s[2]] for s in m_script]
+                    if ms != steps:
+                        bad = "script: model %s, real %s" % (str(ms)[:300], str(steps)[:300])
+            if bad:
+                ndis += 1
+                if ndis <= 3:
+                    ctx.broken("correspondence:c04:macro-" + name, "%s on %s: %s" % (name, descr, bad))
+                    ctx.coverage["disagreements_checked"] += 1
+        ctx.coverage["macro_tie"] = dict(self.n, scripts_compared_line_by_line=nscript, disagreements=ndis)
+        ctx.log("macro tie: %s, %d scripts compared line by line, %d disagreements" % (self.n, nscript, ndis))
+
+
 # ------------------------------------------------------------------ the oracle stream
 GOOD = ("agree", "no-expansion", "no-evaluation")
 
@@ -1070,6 +1194,7 @@ class Oracle:
         self.t_judge = 0.0
         self.nshrunk = {}
         self.tie = None
+        self.mtie = None
         self.ncalls = 0
         self.nauto_hist = 0
         self.unexpanded = {}       # macro -> smallest input with eval ok and no expansion
@@ -1129,6 +1254,8 @@ class Oracle:
             st["agree"] += 1
             if self.tie is not None:
                 self.tie.maybe_add(name, args, ths)
+            if self.mtie is not None:
+                self.mtie.maybe_add(name, args, ths, r["th_eval"])
         self.ctx.case((name, hash(k) if not isinstance(k[1], str) else k), nontrivial=(r["expand"] == "ok"))
         self.ctx.count("%s:%s" % (src, v.split(":")[0]))
         if v not in GOOD and v != "timeout":
@@ -1427,7 +1554,7 @@ def run(ctx):
         "(d) the macro steps nested in every checked expansion, as inputs of their own (depth 2); (e) apply_theorem(_for) on every "
         "theorem of the theory that is not a first-order pattern, with variable / abstraction / redex-carrying instances and premises; "
         "(f) HISTORIES: several calls in one process (hypothesis-free premises, then no premises, then assumptions, ...) for sampled "
-        "harvested calls and for `auto` with solve rules registered through auto.add_global_autos (library rule-like theorems; in the "
+        "harvested calls; conditional rewrite theorems with side-condition premises carrying different hypotheses (rewrite_goal(_sym), rewrite_fact(_sym)); non-canonical numerals (of_nat 0, of_nat 1, padded binary) in the inputs of every arithmetic family; and for `auto` with solve rules registered through auto.add_global_autos (library rule-like theorems; in the "
         "thorough tier also integral/proof.py's own rules), each call with its premises at other line numbers. "
         "Distinct by structural key of the input; "
         "non-trivial = an expansion is produced. Export tie: harvested proof terms and synthetic derivations from primitive rules "
@@ -1440,9 +1567,9 @@ def run(ctx):
     except ValueError as e:
         table = None
         ctx.broken("translate:c04:macro-registry", str(e))
-    proofs_ok = ctx.lean_props(["Holpy.C04.Props"], exes=[EXE])
+    proofs_ok = ctx.lean_props(["Holpy.C04.Props", "Holpy.C04.PropsDag", "Holpy.C04.PropsMacro"], exes=[EXE])
     if ctx.tier == "thorough" and proofs_ok:
-        ctx.lean_check_modules(["Holpy.C04.Props"])
+        ctx.lean_check_modules(["Holpy.C04.Props", "Holpy.C04.PropsDag", "Holpy.C04.PropsMacro"])
     ctx.coverage["trusted_base"] += [
         "harness/props/c04.py: recorder, mutators, generators, the comparison of eval with the checked expansion",
         "the real checker theory.check_proof at check_level=0 is the judge of expansions (its soundness is C01/C02)",
@@ -1474,6 +1601,7 @@ def run(ctx):
         ctx.coverage["registry"] = {"ast": len(tb), "runtime": len(rt)}
     oracle = Oracle(ctx, impl, table)
     oracle.tie = ExportTie(ctx, impl, ctx.scale(400, 4000))
+    oracle.mtie = MacroTie(ctx, impl, ctx.scale(150, 1500))
     mut = Mutator(ctx.rng("mutate"))
     # corpus first
     run_corpus(ctx, impl, oracle)
@@ -1505,6 +1633,7 @@ def run(ctx):
     run_generators(ctx, impl, oracle, mut)
     oracle.report()
     oracle.tie.finish()
+    oracle.mtie.finish()
     # evidence
     per = {}
     for name in sorted(set(rt) | set(oracle.stats)):
@@ -2158,6 +2287,144 @@ def integral_auto_histories(ctx, impl, oracle):
         ctx.log("histories auto-integral unavailable: %s" % e)
 
 
+# ------------------------------------------------------------------ non-canonical numerals / conditional rewriting
+def noncanonical(t, rng, p=0.6):
+    """t with (some of) its numerals written non-canonically: of_nat 0, of_nat 1, binary numerals padded with
+    a leading zero digit (bit1 zero for one).  Same value, same type."""
+    from kernel.term import Comb, Abs, Const, Binary, of_nat
+    from kernel.type import NatType, TFun
+    try:
+        if (t.is_comb() or t.is_const()) and t.is_nat_number() and rng.random() < p:
+            T = t.get_type()
+            v = t.dest_number()
+            bit0 = Const("bit0", TFun(NatType, NatType))
+            bit1 = Const("bit1", TFun(NatType, NatType))
+            zero, one = Const("zero", NatType), Const("one", NatType)
+
+            def pad(b):
+                if b.is_const("one"):
+                    return bit1(zero)
+                if b.is_const("zero"):
+                    return bit0(zero)
+                return b.fun(pad(b.arg))
+            k = rng.random()
+            if v == 0:
+                b = zero if k < 0.6 else bit0(zero)
+            elif v == 1:
+                b = one if k < 0.6 else bit1(zero)
+            else:
+                b = pad(Binary(v))
+            return of_nat(T)(b)
+    except Exception:  # noqa
+        return t
+    if t.is_comb():
+        return Comb(noncanonical(t.fun, rng, p), noncanonical(t.arg, rng, p))
+    if t.is_abs():
+        return Abs(t.var_name, t.var_T, noncanonical(t.body, rng, p))
+    return t
+
+
+def noncanonical_stream(ctx, impl, oracle):
+    """Every arithmetic macro family on inputs whose numerals are written non-canonically."""
+    import time
+    from kernel.term import Term
+    from kernel.thm import Thm
+    t0 = time.time()
+    fams = [("hoare", "nat_arith"), ("hoare", "fun_upd"), ("expr", "avalI"), ("real", "int_real_arith")]
+    n = 0
+    for thy, meth in sorted(fams):
+        try:
+            load_state(impl, thy, None)
+        except Exception:  # noqa
+            continue
+        rng = ctx.rng("gen:noncanonical:" + meth)
+        G = FamGen(rng)
+        for i in range(ctx.scale(60, 600)):
+            try:
+                cases = getattr(G, meth)()
+            except Exception:  # noqa
+                continue
+            for (name, args, ths) in cases:
+                try:
+                    if name not in impl.theory.global_macros or not impl.theory.has_macro(name):
+                        continue
+                except AttributeError:
+                    continue
+                a2 = noncanonical(args, rng) if isinstance(args, Term) else args
+                t2 = [Thm(noncanonical(t.prop, rng), tuple(t.hyps)) for t in ths]
+                if a2 is args and all(x.prop is y.prop for x, y in zip(t2, ths)):
+                    continue
+                if isinstance(a2, Term) and not well_typed(a2):
+                    continue
+                oracle.run_one(name, a2, t2, {"kind": "generated", "family": "noncanonical-numerals:" + meth, "index": i}, "generated")
+                n += 1
+    ctx.log("generators noncanonical-numerals: %d inputs in %.1fs; findings so far: %d" % (n, time.time() - t0, len(oracle.found)))
+
+
+def cond_rewrite_stream(ctx, impl, oracle):
+    """rewrite_goal / rewrite_goal_sym / rewrite_fact / rewrite_fact_sym with CONDITIONAL rewrite theorems
+    A1 --> ... --> lhs = rhs of the loaded theory: the rewritten statement and every side condition is a premise
+    with hypotheses of its own (eval must collect the hypotheses of all of them)."""
+    import time
+    from kernel.term import Var, Inst
+    from kernel.type import TyInst, NatType, TFun, BoolType
+    from kernel.thm import Thm
+    t0 = time.time()
+    theory = impl.theory
+    rng = ctx.rng("gen:cond-rewrite")
+    rules = []
+    for nm in sorted(theory.thy.get_data("theorems").keys()):
+        try:
+            th = theory.get_theorem(nm)
+            As, C = th.prop.strip_implies()
+            if th.hyps or not (1 <= len(As) <= 3) or th.prop.size() > 60 or not C.is_equals():
+                continue
+            ls = set(v.name for v in C.lhs.get_svars())
+            if not ls or any(v.name not in ls for t in As + [C.rhs] for v in t.get_svars()) or C.lhs.is_svar():
+                continue
+            rules.append(nm)
+        except Exception:  # noqa
+            continue
+    Hs = [Var("H%d" % i, BoolType) for i in range(1, 5)]
+    n = 0
+    for i in range(ctx.scale(80, 800)):
+        if not rules:
+            break
+        nm = rules[i % len(rules)] if i < len(rules) else rng.choice(rules)
+        th = theory.get_theorem(nm)
+        try:
+            tyinst = TyInst({stv.name: NatType for stv in th.prop.get_stvars()})
+            prop = th.prop.subst_type(tyinst)
+            inst = Inst({sv.name: Var("h_" + sv.name, sv.T) for sv in prop.get_svars()})
+            As, C = prop.subst(inst).strip_implies()
+            T = C.lhs.get_type()
+            if T == BoolType:
+                ctxf = lambda x: x        # noqa
+            else:
+                P = Var("c04P", TFun(T, BoolType))
+                ctxf = lambda x: P(x)     # noqa
+            g_l, g_r = ctxf(C.lhs), ctxf(C.rhs)
+        except Exception:  # noqa
+            continue
+
+        def hy(j):
+            k = rng.random()
+            if k < 0.25:
+                return ()
+            if k < 0.8:
+                return (Hs[j % 4],)
+            return (Hs[j % 4], Hs[(j + 1) % 4])
+        conds = [Thm(A, hy(j + 1)) for j, A in enumerate(As)]
+        org = {"kind": "generated", "family": "cond-rewrite", "index": i, "theorem": nm}
+        for (name, args, ths) in [("rewrite_goal", (nm, g_l), [Thm(g_r, hy(0))] + conds),
+                                  ("rewrite_goal_sym", (nm, g_r), [Thm(g_l, hy(0))] + conds),
+                                  ("rewrite_fact", nm, [Thm(g_l, hy(0))] + conds),
+                                  ("rewrite_fact_sym", nm, [Thm(g_r, hy(0))] + conds)]:
+            oracle.run_one(name, args, ths, org, "generated")
+            n += 1
+    ctx.log("generators cond-rewrite: %d conditional rewrite theorems, %d inputs in %.1fs; findings so far: %d" % (len(rules), n, time.time() - t0, len(oracle.found)))
+
+
 def run_generators(ctx, impl, oracle, mut):
     import time
     order = sorted(GEN_FAMILIES, key=lambda f: f[1])
@@ -2204,9 +2471,11 @@ def run_generators(ctx, impl, oracle, mut):
             ho_theorem_stream(ctx, impl, oracle, mut)
             auto_rule_histories(ctx, impl, oracle)
             auto_norm_histories(ctx, impl, oracle)
+            cond_rewrite_stream(ctx, impl, oracle)
         except Exception as e:  # noqa
             ctx.log("ho-theorem / history streams on %s stopped: %s: %s" % (thy, type(e).__name__, e))
             ctx.count("generator-error:ho-or-history:" + thy)
+    noncanonical_stream(ctx, impl, oracle)
     if ctx.tier == "thorough":
         integral_auto_histories(ctx, impl, oracle)
     verit_stream(ctx, impl, oracle, mut)
@@ -2324,7 +2593,7 @@ MANIFEST = {
             "expansion branch: for every proof term whose nodes satisfy the constructor invariant the exported lines check, state exactly "
             "the root sequent (same conclusion, no added hypothesis) and cite only earlier lines / admissible lines (export_check, "
             "export_shared_sequent for every dictionary lookup that identifies only Thm.__eq__-equal sequents); for macros with the default "
-            "eval/expand and a parametric get_proof_term the checked expansion equals eval (default_eval_expand). The macro registry "
+            "eval/expand and a parametric get_proof_term the checked expansion equals eval (default_eval_expand); export_dag_lines_unique: for derivations that do not repeat a sequent along a path every sequent is exported at most once. Per-macro theorems on the shared kernel model (15 primitive rules, C01 checker model runScriptAx): macro_eval_eq_expand_trivial, _intros (assumption premises), _apply_theorem (first-order monomorphic theorem, type-complete instantiation without remaining schematic variables): whenever the modelled eval reports th and the checker model accepts the modelled expansion script, the last theorem of the script is th; plus trivial_eval_spec / intros_eval_spec (no hypotheses added). The macro registry "
             "(level, eval/expand/get_proof_term overrides) is regenerated from the sources and the lists of eval-overriding and of trusted "
             "(level 0) macros are pinned by `decide`. Per-macro agreement of eval and expansion is NOT proved: it is validated on every run by "
             "the real checker (check_level=0) on inputs harvested from the stored library proofs (incl. the nested steps of expansions), "
@@ -2333,7 +2602,7 @@ MANIFEST = {
             "(counts per macro in evidence: inputs / eval ok / expansion produced / compared / agree; macros never reached are listed). "
             "Besides eval = checked expansion the oracle requires that an expansion cites only the premises given to that call (or its own "
             "earlier lines), has no gaps, and that a macro above the default trust level produces an expansion on at least one input on "
-            "which its eval succeeds. Model tied to kernel/proofterm.py by differential runs of the compiled driver on harvested and synthetic proof terms (line "
+            "which its eval succeeds. The macro models are tied to logic/logic.py on harvested and generated invocations through the driver (model eval vs real eval, model script vs the real exported lines rule by rule, model script run by runScriptAx vs real eval); all other macros (and the quantifier / exists / higher-order / polymorphic cases of these three) are validated per run only. Model tied to kernel/proofterm.py by differential runs of the compiled driver on harvested and synthetic proof terms (line "
             "structure: ids, rules, citations, sequents; checker verdict with all macros evaluated) and on ItemID.can_depend_on. An input on "
             "which eval raises while an expansion exists is counted (no-evaluation), not a violation, for macros with their own eval. "
             "Trusted: Lean kernel + propext/Classical.choice/Quot.sound, the harness (recorder, mutators, generators, comparison), "
